@@ -52,7 +52,7 @@ CLAIMED = {
          'SSA interpretation under an exhaustive scheduler with sleep sets (bounded schedule exploration); solver only for data decisions'),
  'C02': ('DESIGN.md §4 C02',
          'One step of the real adaptiveShedder.Allow / promise.Pass / promise.Fail from an arbitrary shedder state (rolling-window bucket contents, in-flight count and moving average, droppedRecently, overloadTime, CPU load, threshold and clock all symbolic; floats in the E2 real relaxation) against a capacity oracle recomputed by the harness: shed only if (cpu >= threshold or still hot) and in-flight > 10% of capacity; must shed when overloaded with in-flight and average above capacity; never shed with nothing in flight; exact in-flight, window and cool-off state transitions; Disable() yields a shedder that never sheds.',
-         'go/ssa translation, gosym, z3; E2 float encoding (over-approximation of IEEE-754 RNE with monotonicity/anchor axioms; Floor/Ceil/Round of integer/constant quotients computed exactly in integers); 1..2 buckets in quick (1..3 thorough), per-bucket pass count <= 2 (8), 0..1 (0..3) latency samples per bucket; stat.CpuUsage stubbed by a symbolic load; cpuThreshold in 1..999; which buckets a Reduce visits is C16\'s claim (recomputed in the oracle); SheddingHandler and UnarySheddingInterceptor are checked over a recording shedder (exactly one Pass/Fail per admitted request, also on panic; 503 / ResourceExhausted when shed); sheddergroup and the CPU sampler are not covered.',
+         'go/ssa translation, gosym, z3; E2 float encoding (over-approximation of IEEE-754 RNE with monotonicity/anchor axioms; Floor/Ceil/Round of integer/constant quotients computed exactly in integers); 2 buckets in quick with pass counts 0..1 and 0..1 latency samples per bucket (thorough: 1..2 buckets with 0..2 samples, 3 buckets with 0..1); the two factors of the capacity estimate (maxPass, minRt) are additionally checked on their own with symbolic pass counts 0..1000 over 2..3 buckets (Verif_C02_Peak); stat.CpuUsage stubbed by a symbolic load; cpuThreshold in 1..999; which buckets a Reduce visits is C16\'s claim (recomputed in the oracle); SheddingHandler and UnarySheddingInterceptor are checked over a recording shedder (exactly one Pass/Fail per admitted request, also on panic; 503 / ResourceExhausted when shed); sheddergroup and the CPU sampler are not covered.',
          'SSA symbolic execution + SMT (z3), one-step check from an arbitrary state, E2 float relaxation'),
  'C06': ('DESIGN.md §4 C06',
          'Symbolic execution of the real cacheNode (TakeCtx/TakeWithExpireCtx/doTake/doGetCache/processCache/setCacheWithNotFound/SetWithExpireCtx/SetCtx/DelCtx), mathx.Unstable.AroundDuration (jitter arithmetic in the E2 float relaxation, random draw symbolic) and the SingleFlight barrier against the Redis model: one cached read from an arbitrary coherent (cache, database) state with symbolic TTL/clock, database failure and a store failure at a symbolic call index; TTL windows (+/-5%, rounded up, >= 1 s, never persistent); writes and invalidation; two concurrent readers under every interleaving (one query in flight, shared result).',
